@@ -42,6 +42,10 @@ pub struct GenCfg {
   pub fault_steps: bool,
   /// History contains ArmPanic steps (C19).
   pub panic_steps: bool,
+  /// Bottom-up reports may additionally name resources that did not change (must schedule nothing).
+  pub over_report: bool,
+  /// Bottom-up sessions may start with top-down requires and may contain a second bottom-up build.
+  pub mixed_sessions: bool,
 }
 
 impl GenCfg {
@@ -51,6 +55,7 @@ impl GenCfg {
       rchks: RCHKS.to_vec(), ochks: OCHKS.to_vec(), wchks: vec![RChk::Exact],
       faulty: false, multi_access: true, bottom_up: false, dyn_targets: true, written_to: true,
       bottom_up_weight: 3, wide: false, exact_share: 3, fault_steps: false, panic_steps: false, multi_checker_share: 0, multi_checker: false, task_panic_share: 0, panicky: false,
+      over_report: false, mixed_sessions: false,
     }
   }
   pub fn thorough() -> Self {
@@ -71,7 +76,7 @@ pub fn genome_strategy(cfg: &GenCfg) -> impl Strategy<Value=Genome> {
   (
     proptest::collection::vec(any::<u16>(), 0..=24),
     proptest::collection::vec(proptest::collection::vec(any::<u16>(), 0..=tlen), 1..=cfg.max_tasks),
-    proptest::collection::vec(proptest::collection::vec(any::<u16>(), 0..=10), 1..=cfg.max_steps),
+    proptest::collection::vec(proptest::collection::vec(any::<u16>(), 0..=14), 1..=cfg.max_steps),
   ).prop_map(|(layout, tasks, steps)| Genome { layout, tasks, steps })
 }
 
@@ -90,7 +95,7 @@ pub fn genome_from_bytes(data: &[u8], cfg: &GenCfg) -> Genome {
   for _ in 0..12 { g.layout.push(next16(&mut it).unwrap_or(0)); }
   for _ in 0..n_steps {
     let mut s = vec![];
-    for _ in 0..6 { s.push(next16(&mut it).unwrap_or(0)); }
+    for _ in 0..10 { s.push(next16(&mut it).unwrap_or(0)); }
     g.steps.push(s);
   }
   // Remaining bytes are dealt round-robin... no: contiguous chunks per task keep mutations local.
@@ -538,7 +543,27 @@ pub fn build_history(g: &Genome, prog: &Program, cfg: &GenCfg) -> History {
         if rd.chance(1, 2) { report.reverse(); }
         let n_then = rd.pick(3);
         let then = (0..n_then).map(|_| rd.pick(n_tasks) as TaskId).collect();
-        steps.push(Step::Session { builds: vec![Build::BottomUp { report, then }] });
+        let mut builds = vec![];
+        // Mixed session: top-down requires before the bottom-up build (same session, same external state).
+        if cfg.mixed_sessions && rd.chance(1, 4) {
+          for _ in 0..1 + rd.pick(2) { builds.push(Build::TopDown(rd.pick(n_tasks) as TaskId)); }
+        }
+        // Over-report: resources that did not change are reported as well (at any position of the report).
+        if cfg.over_report && rd.chance(1, 3) {
+          for _ in 0..1 + rd.pick(2) {
+            let extra = rd.pick(prog.n_res as usize) as ResId;
+            if !report.contains(&extra) { let at = rd.pick(report.len() + 1); report.insert(at, extra); }
+          }
+        }
+        builds.push(Build::BottomUp { report, then });
+        // A second bottom-up build in the same session: nothing changed in between, whatever it reports.
+        if cfg.mixed_sessions && rd.chance(1, 5) {
+          let mut report2 = vec![];
+          for _ in 0..rd.pick(3) { let r = rd.pick(prog.n_res as usize) as ResId; if !report2.contains(&r) { report2.push(r); } }
+          let then2 = (0..rd.pick(2)).map(|_| rd.pick(n_tasks) as TaskId).collect();
+          builds.push(Build::BottomUp { report: report2, then: then2 });
+        }
+        steps.push(Step::Session { builds });
       }
     }
   }
